@@ -4,7 +4,9 @@ Decided by: (1) the Board monitor (tla/Board.tla): configure-before-use per pin 
 in order, every button sampled exactly once per pass before user statements.  TLC model-checks that the monitor
 accepts exactly the histories the declarative discipline allows (BoardMC: all event sequences up to a bound), TLC
 enumerates the scenarios (BoardGen: device kind x declared before the loop / at the top of its body x first used in
-setup / loop / a helper function x 0-2 buttons with handlers x a second device), each scenario runs as firmware for
+setup / loop / a helper function x 0-2 buttons with handlers x a second device x 0-2 looping LCD animations whose ticks
+are held to the same once-per-pass-before-user-statements rule as button samples x every second pass ended early by
+`continue`), each scenario is transpiled twice in one process and the second emission runs as firmware for
 N passes and TLC validates the projected event trace (BoardTrace).  (2) Lang: programs whose prologue prints and whose
 body accumulates state across passes are judged three-way (values persist exactly as in CPython, prologue once).
 (3) `break` that would leave the main loop must be refused by the transpiler."""
@@ -31,10 +33,11 @@ BREAKS = {
 
 def check(run) -> None:
     quick = run.tier == "quick"
-    run.cov["rule"] = ("a case = one scenario (device kind x placement x first use x buttons x second device) run as firmware for 3 passes and "
+    run.cov["rule"] = ("a case = one scenario (device kind x placement x first use x buttons x second device x animations x early continue) run as firmware for 3-4 passes and "
                        "validated by the Board monitor, or one persistence program judged three-way, or one break placement; all distinct")
     run.assumptions += ["device pins of a scenario are the pins of its declared devices; pins touched through the Core helpers are the user's business",
-                        "a button's initial read in setup() is allowed; the once-per-pass rule applies to loop() passes"]
+                        "a button's initial read in setup() is allowed; the once-per-pass rule applies to loop() passes",
+                        "an animation tick is recognised by its single clock read (nothing else reads the clock in an animated scenario)"]
     res = run_tlc("BoardMC", "INIT MInit\nNEXT MNext\nCONSTANT MaxLen = %d\nINVARIANT MonitorExact\nCHECK_DEADLOCK FALSE\n" % (4 if quick else 5),
                   workers=8, timeout=1500)
     if not res.ok:
